@@ -260,7 +260,7 @@ func runC20U1(c *Ctx) {
 	var callerEvents []ssa.Value
 	for _, f := range c.AllFns {
 		eachInstr(f, func(i ssa.Instruction) {
-			if cc := callCommon(i); cc != nil && cc.IsInvoke() && cc.Method.Name() == "Log" && namedIs(cc.Value.Type(), "logger.Logger") && len(cc.Args) == 1 {
+			if cc := callCommon(i); c20IsLogCall(cc) && len(cc.Args) == 1 {
 				callerEvents = append(callerEvents, cc.Args[0])
 			}
 		})
